@@ -530,16 +530,16 @@ struct stack_harness : sim::Harness
             }
             else if ( x < 99 ) p.ops.push_back( sim::Op( stack::op_central_terminate, {} ) );
             else p.ops.push_back( sim::Op( stack::op_run, { rng.range( 100, 400 ) } ) );
-            // a procedure of the peripheral that the central leaves unanswered, and a long wait (40 s are thousands of connection events)
-            if ( property == "C27" && !adv_focus && rng.chance( 3 ) )
-            {
-                p.ops.push_back( sim::Op( stack::op_app, { rng.chance( 50 ) ? 5 : 3, rng.range( 0, 11 ), rng.range( 0, 9 ), 0 } ) );
-                if ( rng.chance( 60 ) ) { p.ops.push_back( sim::Op( stack::op_run, { rng.range( 1, 40 ) } ) ); p.ops.push_back( sim::Op( stack::op_central_update, { rng.range( 1, 2 ), rng.range( 6, 30 ), rng.range( 0, 100000 ), 0, 0, 0, 0 } ) ); }
-                for ( int k = 0; k != 16; ++k ) p.ops.push_back( sim::Op( stack::op_run, { 400 } ) );
-            }
         }
         if ( !adv_focus && !connect_planned )
             p.ops.insert( p.ops.begin() + 1, sim::Op( stack::op_connect, { 0, 0, rng.range( 0, 30 ), rng.range( 0, 3 ), rng.range( 0, 599 ), 1, 0, rng.range( 0, 11 ), 0, rng.range( 0, 39 ), rng.range( 0, 999 ), rng.range( 0, 3 ) } ) );
+        // a procedure of the peripheral that the central leaves unanswered, and a long wait (40 s are thousands of connection events)
+        if ( property == "C27" && !adv_focus && rng.chance( thorough ? 4 : 2 ) )
+        {
+            p.ops.push_back( sim::Op( stack::op_app, { rng.chance( 50 ) ? 5 : 3, rng.range( 0, 11 ), rng.range( 0, 9 ), 0 } ) );
+            if ( rng.chance( 60 ) ) { p.ops.push_back( sim::Op( stack::op_run, { rng.range( 1, 40 ) } ) ); p.ops.push_back( sim::Op( stack::op_central_update, { rng.range( 1, 2 ), rng.range( 6, 30 ), rng.range( 0, 100000 ), 0, 0, 0, 0 } ) ); }
+            for ( int k = 0; k != 16; ++k ) p.ops.push_back( sim::Op( stack::op_run, { 400 } ) );
+        }
         p.ops.push_back( sim::Op( stack::op_run, { rng.range( 2, 30 ) } ) );
         return p;
     }
